@@ -82,3 +82,10 @@ fn d17_targets_roundtrip() {
     let doc2 = Document::parse(&out).unwrap_or_else(|e| panic!("printed text must parse: {e:?}\n{out}"));
     assert_eq!(doc2.directive.targets.as_ref().map(|t| t.string), Some("c:d/w"));
 }
+
+#[test]
+fn d19_arrow_without_result() {
+    let r = Document::parse("package a:b;\ntype f = func() -> ;\n");
+    println!("{:?}", r.as_ref().map(|_| "accepted").map_err(|e| e.to_string()));
+    assert!(r.is_err(), "`func() ->` without a result type must be rejected");
+}
